@@ -746,6 +746,17 @@ def containers(ctx: Any) -> List[Ob]:
         for a in adds:
             an = next(n for n in cfg.nodes if any(c is a for c in n.calls()))
             obs.append(ob(R, m, a, 'a record enters an answer bucket only after it was stored in the additionals table', cfg.dominated_by_any(an, stores)))
+    # side conditions of the invariants that other rules decide: their obligations are part of this rule too, so a change that
+    # breaks `every live heap entry has a schedule-map entry` (a push that does not supersede the alias's previous entry: the
+    # second pop finds the map entry gone) is reported here as the KeyError into the timer callback that it is
+    from .c03 import index as _c03_index
+    from .c10 import pair as _c10_pair
+
+    for src, what in ((_c10_pair, 'schedule heap / map pairing'), (_c03_index, 'registry indexes maintained together')):
+        for o in src.fn(ctx):
+            o.rule = R
+            o.statement = f'[invariant behind an unchecked container access: {what}] ' + o.statement
+            obs.append(o)
     return obs
 
 
